@@ -84,3 +84,27 @@ func ZvC05_S2_LQueue() {
 	}
 	vrt.Cover("C05/S2/LQueue/end")
 }
+
+// ZvC05_LongRun: one long scenario beyond the inductive size bound — grow the slice queue to 130
+// symbolic elements (the backing array is reallocated seven times on the way), then drain it
+// completely, checking value, Size and Peek at every step. Not a substitute for larger bounds,
+// but it exercises capacity-dependent code (growth, and any shrinking an implementation may do)
+// that queues of <= 6 elements never reach.
+func ZvC05_LongRun() {
+	const N = 130
+	q := New[int]()
+	vals := make([]int, N)
+	for i := range vals {
+		vals[i] = vrt.Int()
+		q.Enqueue(vals[i])
+	}
+	vrt.Assert(q.Size() == N, "C05/Queue/long-run/Size-after-growth")
+	for i := 0; i < N; i++ {
+		vrt.Assert(q.Peek() == vals[i], "C05/Queue/long-run/Peek-is-next")
+		v, err := q.Dequeue()
+		vrt.Assert(vrt.And(err == nil, v == vals[i]), "C05/Queue/long-run/fifo-without-loss")
+		vrt.Assert(q.Size() == N-1-i, "C05/Queue/long-run/Size-while-draining")
+	}
+	_, err := q.Dequeue()
+	vrt.Assert(vrt.And(err != nil, q.Size() == 0), "C05/Queue/long-run/empty-at-the-end")
+}
